@@ -942,7 +942,81 @@ func (g *Gen) Txn() ([]Op, TxnMeta) {
 // indexPlay builds a whole transaction around one schema index: patterns that
 // duplicate an index value only transiently (must be accepted) or finally
 // (must be rejected).
+// gcReuse: a non-root row that the transaction touches, then un-references (so
+// that it is garbage collected at commit), while a new row takes its index
+// value. Valid: the old row is gone at the end.
+func (g *Gen) gcReuse() ([]Op, string) {
+	for _, tn := range g.sch.TableNames {
+		t := g.sch.Tables[tn]
+		if g.sch.IsRoot(tn) || len(t.Indexes) == 0 || len(t.Indexes[0]) != 1 {
+			continue
+		}
+		for _, u := range g.rowsOf(tn) {
+			// exactly one strong reference, held in a set column of a root table
+			type site struct{ table, row, col string }
+			var refs []site
+			for _, ftn := range g.sch.TableNames {
+				ft := g.sch.Tables[ftn]
+				for fu, fr := range g.st[ftn] {
+					for _, cn := range ft.ColNames {
+						c := ft.Columns[cn]
+						for _, b := range []*BaseType{c.Type.Key, c.Type.Val} {
+							if b == nil || b.RefTable != tn || b.RefType == "weak" {
+								continue
+							}
+							v := fr[cn]
+							hit := v.Has(AUUID(u))
+							for _, p := range v.Map {
+								if (p.K.T == 'u' && p.K.S == u) || (p.V.T == 'u' && p.V.S == u) {
+									hit = true
+								}
+							}
+							if hit {
+								refs = append(refs, site{ftn, fu, cn})
+							}
+						}
+					}
+				}
+			}
+			if len(refs) != 1 {
+				continue
+			}
+			r := refs[0]
+			rc := g.sch.Tables[r.table].Columns[r.col]
+			if !g.sch.IsRoot(r.table) || rc.Type.IsMap() || rc.Type.IsScalar() || rc.Type.IsOptional() || rc.Immutable {
+				continue
+			}
+			row, ok := g.rowFor(t, false)
+			if !ok {
+				continue
+			}
+			idxCol := t.Indexes[0][0]
+			row[idxCol] = ValueToWire(g.st[tn][u][idxCol], true)
+			name := g.tag + "_reuse"
+			touch := Op{"op": "update", "table": tn, "where": g.whereUUID(u), "row": map[string]any{"rank": 6000 + g.pick(1000)}}
+			drop := Op{"op": "mutate", "table": r.table, "where": g.whereUUID(r.row), "mutations": []any{[]any{r.col, "delete", ValueToWire(SetOf(AUUID(u)), false)}}}
+			ins := Op{"op": "insert", "table": tn, "row": row, "uuid-name": name}
+			keep := Op{"op": "mutate", "table": r.table, "where": g.whereUUID(r.row), "mutations": []any{[]any{r.col, "insert", ValueToWire(SetOf(AUUID("@"+name)), false)}}}
+			g.decl[name] = tn
+			switch g.pick(3) {
+			case 0:
+				return []Op{touch, drop, ins, keep}, "gc-then-reuse"
+			case 1:
+				return []Op{touch, ins, keep, drop}, "reuse-then-gc"
+			default:
+				return []Op{drop, ins, keep}, "gc-untouched-then-reuse"
+			}
+		}
+	}
+	return nil, ""
+}
+
 func (g *Gen) indexPlay() ([]Op, string) {
+	if g.chance(200) {
+		if ops, kind := g.gcReuse(); ops != nil {
+			return ops, kind
+		}
+	}
 	var cands []*Table
 	for _, tn := range g.sch.TableNames {
 		t := g.sch.Tables[tn]
